@@ -51,7 +51,7 @@ TraceInit == Init /\ l = 1
 TBegin ==
   /\ pc = "idle" /\ l <= NEv
   /\ LET e == Ev IN
-     \/ /\ e.ev = "Step"   /\ CallStep(e.n, e.take_best, ToSet(e.en_v), ToSet(e.dis_v), ToSet(e.dis_t)) /\ l' = l
+     \/ /\ e.ev = "Step"   /\ CallStep(e.n, e.take_best, ToSet(e.en_v), ToSet(e.dis_v), ToSet(e.dis_t), ToSet(e.en_t)) /\ l' = l
      \/ /\ e.ev = "Solve"  /\ CallSolve /\ l' = l
      \/ /\ e.ev = "Tag"    /\ CallTag /\ l' = l
      \/ /\ e.ev = "Retarget" /\ CallRetarget /\ Match(e, cur', vact', tact', log', ret'.out) /\ l' = l + 1 /\ Reached
